@@ -830,11 +830,17 @@ pub fn run_case(tier: &str, seed: u64, idx: u64) -> CaseOut {
                 if len < 4 {
                     break;
                 }
-                let start = rng.usize_below(len);
+                // one run in three is aimed at the last 48 bytes (a table's footer: two block handles,
+                // padding, magic number - the only part of a table no checksum covers)
+                let start = if rng.chance(0.34) && len > 48 { len - 48 + rng.usize_below(40) } else { rng.usize_below(len) };
                 let run = (rng.range(2, 700) as usize).min(len - start);
                 let garbage = rng.bytes(run);
-                if rng.chance(0.5) {
+                let how = rng.below(3);
+                if how == 0 {
                     mutations.push((start, format!("zero run of {run}"), Box::new(move |b: &mut Vec<u8>| b[start..start + run].iter_mut().for_each(|x| *x = 0))));
+                } else if how == 1 {
+                    // what an erased or unreadable sector often reads as
+                    mutations.push((start, format!("0xff run of {run}"), Box::new(move |b: &mut Vec<u8>| b[start..start + run].iter_mut().for_each(|x| *x = 0xff))));
                 } else {
                     mutations.push((start, format!("garbage run of {run}"), Box::new(move |b: &mut Vec<u8>| b[start..start + run].copy_from_slice(&garbage))));
                 }
